@@ -619,6 +619,9 @@ def lc_oracle_and_model(ctx, truth, case, status, obs, record, driver_answer):
     eno = [int(sl.raw['npoutA'][j]) for j in kept]
     sub = case['opts']['subsamples']
     if sub:
+        if obs['npstartA'] is None or obs['npoutA'] is None:
+            ctx.fail('light-cone index columns missing', case, obs['halo_cols'], 'npstartA/npoutA', key='lc-index')
+            return False
         if obs['npstartA'] != est or obs['npoutA'] != eno:
             ctx.fail('light-cone index columns are not the stored ones', case, (obs['npstartA'], obs['npoutA']), (est, eno), key='lc-index')
             good = False
